@@ -22,6 +22,10 @@ import (
 
 var VerifDir = envOr("VERIF", "/verif")
 
+// OutDir is where evidence and replay files go: VerifDir, unless a scratch evaluation (a check
+// run against a copy of the repository, REPO=... VERIF_OUT=...) keeps them apart.
+var OutDir = envOr("VERIF_OUT", VerifDir)
+
 func envOr(k, d string) string {
 	if v := os.Getenv(k); v != "" {
 		return v
@@ -452,9 +456,9 @@ func (k *Check) Finish() {
 		"property_id": k.ID, "tier": k.Tier, "seed": k.Seed, "level": k.Level, "coverage": cov,
 		"assumptions": k.Assumptions, "wall_s": round(mc.Wall() - k.start), "violations": len(viols),
 	}
-	os.MkdirAll(filepath.Join(VerifDir, "evidence"), 0o755)
+	os.MkdirAll(filepath.Join(OutDir, "evidence"), 0o755)
 	data, _ := json.MarshalIndent(ev, "", " ")
-	if err := os.WriteFile(filepath.Join(VerifDir, "evidence", k.ID+".json"), append(data, '\n'), 0o644); err != nil {
+	if err := os.WriteFile(filepath.Join(OutDir, "evidence", k.ID+".json"), append(data, '\n'), 0o644); err != nil {
 		fatal("write evidence: %v", err)
 	}
 	var kl []string
@@ -469,7 +473,7 @@ func (k *Check) Finish() {
 		fmt.Printf("OK property=%s tier=%s executions=%d distinct_nontrivial=%d exhaustive=%v wall=%.1fs\n", k.ID, k.Tier, execs, nontr, exhaustive, mc.Wall()-k.start)
 		os.Exit(0)
 	}
-	os.MkdirAll(filepath.Join(VerifDir, "replays"), 0o755)
+	os.MkdirAll(filepath.Join(OutDir, "replays"), 0o755)
 	seen := map[string]bool{}
 	for _, v := range viols {
 		if seen[v.Part+v.Sig] {
@@ -479,7 +483,7 @@ func (k *Check) Finish() {
 		rp := Replay{Property: k.ID, Tier: k.Tier, Part: v.Part, Choices: v.Choices, Ops: v.Ops, Msg: v.Msg, Sig: v.Sig, Stack: v.Stack}
 		data, _ := json.MarshalIndent(rp, "", " ")
 		sum := sha1.Sum(data)
-		path := filepath.Join(VerifDir, "replays", fmt.Sprintf("%s-%x.json", k.ID, sum[:5]))
+		path := filepath.Join(OutDir, "replays", fmt.Sprintf("%s-%x.json", k.ID, sum[:5]))
 		os.WriteFile(path, data, 0o644)
 		fmt.Printf("  part=%s\n  ops: %s\n  %s\n", v.Part, strings.Join(v.Ops, " "), v.Msg)
 		fmt.Printf("VIOLATION property=%s replay=%s\n", k.ID, path)
